@@ -156,4 +156,7 @@ def storeKind? : String → Option StoreKind
 def flavour? : String → Option Flavour
   | "sync" => some .sync | "fsm" => some .fsm | _ => none
 
+def kindStr : StoreKind → String
+  | .preMem => "preMem" | .postMem => "postMem" | .preIo => "preIo" | .postIo => "postIo" | .empty => "empty"
+
 end Bao.Proto
